@@ -43,6 +43,9 @@ pub fn golden_specs() -> Vec<Spec> {
             v.push(Spec::TzifNamed { name, k });
         }
     }
+    for i in 0..FOOTERS.len() {
+        v.push(Spec::TzifFooter(i as u8));
+    }
     for i in 0..N_STATIC {
         v.push(Spec::Static(i));
         v.push(Spec::TzifBundled(i));
@@ -150,6 +153,52 @@ pub fn ambiguity_consistent(tz: &jiff::tz::TimeZone) -> Result<usize, String> {
     Ok(n)
 }
 
+/// A second check that needs no recording: what `to_offset_info(ts)` reports
+/// (offset, abbreviation, DST flag) must be what `to_offset(ts)` reports and
+/// what the most recent transition at or before `ts` switched to -- three
+/// code paths per kind that must describe the same zone.
+pub fn info_consistent(tz: &jiff::tz::TimeZone) -> Result<usize, String> {
+    use jiff::Timestamp;
+    let mut n = 0;
+    for (start, step, count) in [
+        (631_152_000i64, 6 * 3600 + 1800, 4 * 366),   // 1990
+        (1_704_067_200, 6 * 3600 + 1800, 4 * 366),    // 2024
+        (2_366_841_600, 6 * 3600 + 1800, 4 * 366),    // 2045 (TZif footers)
+    ] {
+        for i in 0..count {
+            let Ok(ts) = Timestamp::from_second(start + i * step) else { continue };
+            let info = tz.to_offset_info(ts);
+            let off = tz.to_offset(ts);
+            if info.offset() != off {
+                return Err(format!(
+                    "to_offset_info({ts}).offset() = {} but to_offset({ts}) = {off}",
+                    info.offset()
+                ));
+            }
+            let Ok(after) = Timestamp::from_second(start + i * step + 1) else { continue };
+            if let Some(tr) = tz.preceding(after).next() {
+                if tr.offset() != info.offset()
+                    || tr.abbreviation() != info.abbreviation()
+                    || tr.dst() != info.dst()
+                {
+                    return Err(format!(
+                        "to_offset_info({ts}) = ({}, {:?}, {:?}) but the latest transition before it (at {}) switched to ({}, {:?}, {:?})",
+                        info.offset(),
+                        info.abbreviation(),
+                        info.dst(),
+                        tr.timestamp(),
+                        tr.offset(),
+                        tr.abbreviation(),
+                        tr.dst()
+                    ));
+                }
+            }
+            n += 1;
+        }
+    }
+    Ok(n)
+}
+
 /// Compares the behaviour digest of a fresh handle of every pooled zone
 /// with the recorded one, and static zones with their heap twins.
 pub fn check_digests() -> Result<usize, String> {
@@ -160,6 +209,9 @@ pub fn check_digests() -> Result<usize, String> {
     for spec in golden_specs() {
         let tz = interp::make_tz(&spec);
         if let Err(e) = ambiguity_consistent(&tz) {
+            return Err(format!("[answer_consistency] a fresh {spec:?} handle is inconsistent with itself: {e}"));
+        }
+        if let Err(e) = info_consistent(&tz) {
             return Err(format!("[answer_consistency] a fresh {spec:?} handle is inconsistent with itself: {e}"));
         }
         let d = format!("{:016x}", digest(&tz));
